@@ -43,6 +43,7 @@ class Check:
         self.t0 = time.time()
         self.violations = []      # (key, what, replay path)
         self.known_hits = []
+        self.known_instances = {}
         self.inconclusive = []
         self.coverage = {}
         self.assumptions = []
@@ -54,12 +55,19 @@ class Check:
         safe = ''.join(c if c.isalnum() or c in '-_.' else '_' for c in name)[:120]
         return os.path.join(REPLAYS, self.pid, safe + '.json')
 
-    def report(self, key, what, replay_obj):
-        """a reproduced violation with role key `key`"""
+    def report(self, key, what, replay_obj, instance=None):
+        """a reproduced violation with role key `key`; `instance` names the failing input.  An open finding that lists its
+        `instances` suppresses exactly those inputs: the same role on any other input is a violation"""
         for k in self.known:
             if k.get('status') == 'open' and k.get('key') == key:
+                listed = k.get('instances')
+                if listed is not None and instance is not None and instance not in listed and os.environ.get('VERIF_COLLECT_INSTANCES') != '1':
+                    key = key + '/unlisted-input'
+                    break
                 if key not in [h[0] for h in self.known_hits]:
                     self.known_hits.append((key, k.get('what', what)))
+                if instance is not None:
+                    self.known_instances.setdefault(key, []).append(instance)
                 return
         path = self.replay_path(key + '-' + hashlib.sha1(json.dumps(replay_obj, sort_keys=True, default=str).encode()).hexdigest()[:8])
         with open(path, 'w') as f:
@@ -78,6 +86,7 @@ class Check:
         }
         if self.known_hits:
             ev['coverage']['known_findings_reproduced'] = [k for k, _ in self.known_hits]
+            ev['coverage']['known_finding_instances'] = {k: sorted(set(v)) for k, v in self.known_instances.items()}
         if self.inconclusive:
             ev['coverage']['inconclusive'] = self.inconclusive[:50]
         with open(os.path.join(EVID, self.pid + '.json'), 'w') as f:
